@@ -137,6 +137,9 @@ FAIL_EXPR = [
     ('undefined-function', ['f_undef', '(', '1', ')']),
     ('undefined-method', ['a', '.', 'f_undef', '(', ')']),
     ('undefined-pipe', ['a', '|', 'f_undef']),
+    ('undefined-dunder-function', ['__f_undef__', '(', '1', ')']),
+    ('undefined-dunder-method', ['a', '.', '__f_undef', '(', ')']),
+    ('undefined-dunder-pipe', ['a', '|', '__f_undef__']),
     ('missing-key', ['hd', '[', '"nokey"', ']']),
     ('index-out-of-range', ['hl', '[', '99', ']']),
     ('negative-index-out-of-range', ['hl', '[', '-', '99', ']']),
@@ -150,6 +153,12 @@ FAIL_STMT = [
     ('undefined-variable-compound-mul', ['u_undef', '*=', '2']),
     ('missing-key-compound', ['hd', '[', '"nokey"', ']', '+=', '1']),
     ('index-out-of-range-compound', ['hl', '[', '99', ']', '-=', '1']),
+    ('index-out-of-range-compound-mul', ['hl', '[', '99', ']', '*=', '2']),
+    ('index-out-of-range-compound-div', ['hl', '[', '-', '99', ']', '/=', '2']),
+    ('missing-key-compound-sub', ['hd', '[', '"nokey"', ']', '-=', '1']),
+    ('missing-key-compound-mul', ['hd', '[', '"nokey"', ']', '*=', '1']),
+    ('missing-key-compound-div', ['hd', '[', '"nokey"', ']', '/=', '1']),
+    ('empty-list-compound', ['he', '[', '0', ']', '+=', '1']),
     ('setitem-full-list', ['full', '[', '0', ']', '=', '1']),
     ('setitem-full-dict', ['fulld', '[', '"new"', ']', '=', '1']),
     ('setop-full-list', ['full', '[', '0', ']', '+=', '1']),
@@ -203,7 +212,7 @@ def is_target_for(kind):
         if cn == 'ShortOp':
             return node.name == 'u_undef'
         if cn == 'CallOp':
-            if node.name == 'f_undef':
+            if node.name in ('f_undef', '__f_undef__', '__f_undef'):
                 return True
             if node.name in ('__getitem__', '__setitem_with_op__', '__setitem__') and node.args:
                 a0 = node.args[0]
